@@ -1929,17 +1929,19 @@ class SourceFinder(object):
 
                 # if the position wasn't fit then copy the errors
                 # from the input catalog
+                # (an input catalogue without error columns has no
+                # errors to copy: report them as unknown = -1)
                 if stage < 2:
-                    ns.err_ra = s.err_ra
-                    ns.err_dec = s.err_dec
+                    ns.err_ra = _known_error(s.err_ra)
+                    ns.err_dec = _known_error(s.err_dec)
                     ns.flags |= flags.FIXED2PSF
 
                 # if the shape wasn't fit then copy the errors
                 # from the input catalog
                 if stage < 3:
-                    ns.err_a = s.err_a
-                    ns.err_b = s.err_b
-                    ns.err_pa = s.err_pa
+                    ns.err_a = _known_error(s.err_a)
+                    ns.err_b = _known_error(s.err_b)
+                    ns.err_pa = _known_error(s.err_pa)
             sources.extend(new_src)
         return sources
 
@@ -2573,6 +2575,18 @@ class SourceFinder(object):
 
 
 # Helpers
+def _known_error(err):
+    """
+    An uncertainty copied from an input catalogue: the value itself when
+    it is a positive finite number, otherwise -1 (= not known), which is
+    what the rest of the catalogue uses for uncertainties that could not
+    be determined.
+    """
+    if np.isfinite(err) and err > 0:
+        return err
+    return -1
+
+
 def fix_shape(source):
     """
     Ensure that a>=b for a given source object.
